@@ -92,14 +92,16 @@ def expand(spec):
 
 class C20(Prop):
     id = "C20"
-    quick_runs = 600
+    quick_runs = 400
     thorough_runs = 12000
     claim = ("generated lifecycle histories (plain / reusable with resize / nested / broken by a crashing task / "
              "kill_workers / idle time-outs) are run once and then k in {2,3,5} more times in the same simulated parent, "
              "each repetition followed by release and collection; exact counts from the kernel model - open descriptors "
              "of the parent, its live threads, its children including zombies, semaphore names it owns - must be the "
              "same after the last repetition as after the first")
-    assumptions = ["the first repetition is a warm-up: the tracker process and its pipe, started on first use, are not counted",
+    assumptions = ["before each count the harness calls multiprocessing.active_children() (which makes multiprocessing forget "
+                   "finished Process objects it still references) and collects garbage",
+                   "the first repetition is a warm-up: the tracker process and its pipe, started on first use, are not counted",
                    "collection after release is an explicit, scheduled operation (two-phase gc.collect)"]
 
     def gen(self, rng, tier):
